@@ -90,6 +90,11 @@ func workload(seed uint64, udp bool) (r result) {
 		suite = []ref.Suite{{Auth: 3, Integ: 4, Conf: 1}, {Auth: 1, Integ: 1, Conf: 1}}[p.intn(2)]
 	}
 	c := hx.Creds{User: fmt.Sprintf("user%d", p.intn(100)), Password: []byte(fmt.Sprintf("pw%d", p.next()%1000000007)), Priv: uint8(2 + p.intn(3)), Suite: suite, Seed: p.next()}
+	if (seed>>24)%2 == 0 {
+		// fleet-wide credentials: about half of the BMCs share user and password
+		// (and so every key derived from the password alone)
+		c.User, c.Password = "fleet", []byte("one password for all")
+	}
 	b := simbmc.New(c.Seed)
 	c.Install(b)
 	// advertised suites, split over several records and chunks
